@@ -120,6 +120,12 @@ CLAIMED.update({
                 note="Floats cannot be rendered symbolically (repr is C code): enumerated boundary values only. Bounds: 3 cells over Unicode (thorough 5), 6 cells over a word alphabet (thorough 8), 7-digit ints. Two known findings (Optional[tuple] () vs None; non-finite floats) are format limitations, recorded; three defects were repaired (fix: commits)."),
 })
 
+CLAIMED.update({
+    "C06": dict(cat="bounded_symbolic", design="DESIGN.md §4 C06",
+                text="Unit-symbolic (M1) through the real Printer, MLIRLexer and Parser: builtin attributes/types are built with SYMBOLIC payloads (StringAttr/file names/symbol names as bounded symbolic text over all of Unicode, BytesAttr as symbolic bytes, IntegerAttr/IntAttr values over the full range of each type incl. i128, DenseArrayBase and DenseIntOrFPElementsAttr from symbolic raw element bytes - i.e. every element value - incl. splats, vectors and 2-d shapes, tensor/memref/vector dims, IntegerType widths, function and tuple types), printed, and the symbolic text is lexed and parsed back in a fresh context; z3 decides for all payload values that the whole text is consumed and the parsed attribute has the same class and identical payloads (dense data byte for byte). Float payloads: enumerated boundary values per float type (both zeros in one process, denormals, extremes, NaN payloads, infinities) in scalar, array and dense form with bit-pattern comparison.",
+                note="repr/format of floats is C code, so floats are not symbolic. Dictionary keys are enumerated (the parser hashes them). Two known findings (non-ASCII strings re-read as bytes literals; all-ASCII BytesAttr re-read as StringAttr) are limitations of the shared literal syntax and are recorded; one defect repaired (hex float elements of dense/array attributes)."),
+})
+
 NOT_APPLICABLE = {
     "C05": "custom assembly formats: the quantifier is over ~80 dialects' op definitions/format programs; no data dimension for a solver beyond what C04/C06 cover for leaves (DESIGN §5)",
     "C17": "pass x corpus-module cross product: deciding it means running each pair concretely; no symbolic dimension (DESIGN §5)",
